@@ -619,8 +619,12 @@ impl State {
                     }
                 }
                 // If, due to floating point issues, no outcome was selected, select the last one.
+                // (never an outcome of probability zero: the collapsed state would be the zero vector)
                 if random_value >= cumulative_probability && !normalised_probabilities.is_empty() {
-                    sampled_outcome_int = normalised_probabilities.len() - 1;
+                    sampled_outcome_int = normalised_probabilities
+                        .iter()
+                        .rposition(|&p| p > 0.0)
+                        .unwrap_or(normalised_probabilities.len() - 1);
                 }
 
                 // Collapse the state vector into a new vector
